@@ -13,7 +13,7 @@ ALL4 = ["std-debug", "std-release", "nosimd-debug", "nosimd-release"]
 
 PROPS = {
     "C01": dict(
-        theorems=["core_eq_spec", "block_conforms"],
+        theorems=["core_eq_spec", "block_conforms", "keystream_conforms", "apply_exact"],
         gen=g("C01"),
         cfgs_quick=["std-debug", "std-release", "nosimd-debug"],
         cfgs_thorough=ALL4,
